@@ -39,7 +39,11 @@ fn main() {
     if a.len() < 4 {
         die("usage: vchild <root> <prefix> <scenario> [service]".into());
     }
-    let dom = Domain::at(&a[2], std::path::Path::new(&a[1]));
+    let mut dom = Domain::at(&a[2], std::path::Path::new(&a[1]));
+    // every wait of the code under test for "somebody else finishes creating this" is bounded by
+    // this value; nothing in the crash checks needs it to be long, and a long value multiplies the
+    // cost of every case in which a survivor meets a half-created resource
+    dom.config.global.creation_timeout = core::time::Duration::from_millis(100);
     let scenario = a[3].as_str();
     let sname: ServiceName = must!(a.get(4).filter(|s| !s.contains('.') && !s.starts_with('/')).map(|s| s.as_str()).unwrap_or("victim/service").try_into(), "service name");
     // VERIF_CHILD_ATOMIC_KILL=<n>: die at the n-th shared-memory atomic write (counted from BEGIN)
